@@ -43,7 +43,12 @@ func runC07(ctx *Ctx) {
 			}
 			ctx.MergeLabels(cfg.Labels)
 			c := &Case{Type: string(t.Name), Bytes: hexs(b), Args: map[string]string{}}
-			c.Sub = rapid.SampledFrom([]string{"unmarshal", "marshal", "readonly"}).Draw(rt, "sub")
+			c.Sub = rapid.SampledFrom([]string{"unmarshal", "marshal", "readonly", "roinput"}).Draw(rt, "sub")
+			if c.Sub == "roinput" && rapid.Bool().Draw(rt, "hostile") {
+				// also an encoding the decoder may reject half-way: the input is the
+				// caller's memory whatever the verdict
+				c.Args["hostile"] = hexs(mutate(rt, ctx, t, b, map[string]int{}))
+			}
 			c.Args["mode"] = rapid.SampledFrom([]string{"default", "deterministic"}).Draw(rt, "mode")
 			if c.Sub == "unmarshal" && rapid.IntRange(0, 2).Draw(rt, "merge") == 0 {
 				b2, d2 := ctx.genTypeStream(rt, t, true, false)
@@ -73,6 +78,50 @@ func checkC07(ctx *Ctx, c *Case) error {
 		return nil
 	}
 	switch c.Sub {
+	case "roinput":
+		// the input lives in memory mapped read-only while Unmarshal runs: a store
+		// into it faults even if the decoder would have undone it before returning
+		// (such a store is visible to whoever reads the buffer at the same time)
+		inputs := []struct {
+			what string
+			b    []byte
+		}{{"a valid encoding", src}}
+		if h := c.arg("hostile"); h != "" {
+			inputs = append(inputs, struct {
+				what string
+				b    []byte
+			}{"a mutated encoding", unhex(h)})
+		}
+		variants := []struct {
+			name string
+			opts proto.UnmarshalOptions
+		}{{"default", proto.UnmarshalOptions{}}, {"Merge into a populated message", proto.UnmarshalOptions{Merge: true}}, {"DiscardUnknown", proto.UnmarshalOptions{DiscardUnknown: true}}}
+		for _, in := range inputs {
+			for _, v := range variants {
+				p := t.New()
+				if v.opts.Merge {
+					p = model.BuildP(t, d.ProtoReflect())
+				}
+				var uerr error
+				fault, other, err := withReadOnly(in.b, func(ro []byte) { uerr = v.opts.Unmarshal(ro, p) })
+				if err != nil {
+					return err
+				}
+				if fault != "" {
+					return fmt.Errorf("Unmarshal (%s) of %s held in read-only memory faulted - it writes to its input: %s; input %s", v.name, in.what, fault, trunc(hexs(in.b), 200))
+				}
+				if other != "" && in.what == "a valid encoding" {
+					return fmt.Errorf("Unmarshal (%s) of a valid encoding panicked: %s", v.name, other)
+				}
+				_ = uerr
+			}
+		}
+		ctx.Label("roinput: decoded from read-only memory")
+		if c.arg("hostile") != "" {
+			ctx.Label("roinput: mutated encoding too")
+		}
+		ctx.Nontrivial(c.Type, c.Bytes, c.arg("hostile"), "roinput")
+		return nil
 	case "unmarshal":
 		b := make([]byte, len(src)) // own allocation, exact capacity
 		copy(b, src)
